@@ -1,5 +1,3 @@
 package main
 
-func runControls(verif, prop string) string                                         { return "" }
-func runControlsCmd(verif string) int                                               { return 0 }
 func runThorough(a *Analysis, reg *Registry, ri *RunInfo, prop, repo, verif string) {}
